@@ -154,7 +154,7 @@ def run_scripts_with_oracle(check, real, scripts_iter, stats, violations, max_vi
 
 
 QUICK_ROUNDS = {"C01": 3, "C02": 2, "C03": 3, "C04": 3, "C05": 4, "C06": 1, "C07": 1, "C08": 3, "C09": 2, "C10": 2,
-                "C11": 3, "C12": 5, "C13": 3, "C14": 3, "C15": 8, "C16": 5, "C17": 3, "C18": 5, "C19": 3, "C20": 8}
+                "C11": 3, "C12": 5, "C13": 3, "C14": 3, "C15": 8, "C16": 5, "C17": 2, "C18": 5, "C19": 3, "C20": 8}
 
 
 class OracleReal:
